@@ -30,6 +30,9 @@ CHECKS = {
  "C16": dict(cat="model_checking", tech="explicit-state search of the share merge lattice for key switching, share conversion, refresh and masked transform on the real protocols, with exact/precision message oracles and a smudging-noise lower bound",
    text="KeySwitch (to shared and to zero key), PublicKeySwitch, mpbgv/mpckks EncToShare->ShareToEnc, Refresh, MaskedTransform (nil/identity/linear/permutation, decode/encode flags): parties 1..3 (quick) / 4 full lattice, 5..8 capped, all input levels from the protocol minimum x output levels, flooding sigma in {default, 2^10, 2^20}, BGV t in {97,65537}, several CKKS slot counts/scales. Decryption under the target key == message (exact / within computed eps), additive shares sum to the message, refresh at the requested level and scale, transform == f(message), per-share smudging noise non-zero with pooled sigma >= requested/2 and <= truncation bound.",
    note="paramsIn == paramsOut only; lambda=128; standard ring only.", ref="§6 C16, §11"),
+ "C20": dict(cat="exploration", tech="bounded-exhaustive enumeration of external-product shapes x decompositions x messages x RGSW plaintexts and of every grid point of the blind-rotation circle, against an independent phase computation and the documented mod-switch",
+   text="External product: shapes {q<2^29 32-bit path, one big prime, 3 primes} x #P in 0..2 x BaseTwoDecomposition {0,7,16,+1..5 on the 29-bit family} x levels x out fresh/in place; messages {0,1,X^i all i, q/4 X^i, ramp} x RGSW plaintexts {0,+-1,X^a all a,X^a-1,ternary}; RGSW encryption rows, AddLazy/Reduce, MulByXPowAlphaMinusOne(ThenAdd)Lazy for all 2N exponents, NoiseRGSWCiphertext; phase(out) = m*g + noise <= worst-case bound derived from the decomposition. Blind rotation: ring pairs (16,32),(16,64),(32,128), Hamming weights {1,2,N/4,N/2}, f in {sign, identity, fixed table} on [-1,1],[-4,4], EVERY point of the 2N-point circle, every slot subset of size <=2 of four indices + full set; each rotation judged on the constant coefficient (drift window derived from modSwitchRLWETo2NLvl), on being a rotation of the table and on the documented exponent; a recording key set asserts only generated keys are requested.",
+   note="RLWE, RGSW and output at equal levels; secret-key RGSW encryption only; coefficient-domain (IsNTT=false) inputs to ExternalProduct are not judged (contract undefined); when the library's own RGSW rows are malformed (finding F1) the evaluator is judged on harness-built RGSW ciphertexts.", ref="§6 C20, §11"),
 }
 NOT_YET = {}
 def main():
